@@ -200,3 +200,86 @@ def run_framing(prop, tier, seed, harness, workdir):
                                       "tags": ["framing"], "cmd": {"verb": "FRAMES"}, "detail": {"test": {k: t[k] for k in ("id", "chunks", "close_after")}, "why": bad}})
     res["samples"].append({"framing_test": {k: tests[5][k] for k in ("id", "chunks")}})
     return res
+
+# ---- C17: keep-alive, design level (Keepalive.tla) and real time (timers + TraceTimers.tla) ----
+def run_keepalive(prop, tier, seed, harness, workdir, T):
+    out = {"tool_errors": [], "violations": [], "coverage": {}}
+    rc, o, dt = run_tlc("Keepalive.tla", "Keepalive.cfg", workers=4, timeout=900)
+    if "Model checking completed. No error has been found." not in o:
+        out["tool_errors"].append("Keepalive model: " + o[-2500:]); return out
+    from tlcutil import tlc_stats
+    st = tlc_stats(o)
+    rec = os.path.join(workdir, "timers.ndjson")
+    p = subprocess.run([harness, "timers", rec, "--grid", tier], stdout=subprocess.PIPE, stderr=subprocess.STDOUT, text=True)
+    if p.returncode != 0:
+        out["tool_errors"].append("timers run failed: " + p.stdout[-1500:]); return out
+    rc, o2, dt = run_tlc("TraceTimers.tla", "TraceTimers.cfg", env={"TRACE": os.path.abspath(rec)}, workers=1, timeout=300)
+    if "Model checking completed. No error has been found." not in o2:
+        out["tool_errors"].append("TraceTimers: " + o2[-2500:]); return out
+    for e in parse_tagged(o2, "TIMERERR"): out["tool_errors"].append("timer run error: " + json.dumps(e)[:300])
+    runs = [json.loads(l) for l in open(rec)]
+    for t in parse_tagged(o2, "TIMER"):
+        out["violations"].append({"kind": "timer", "class": "%s/%d-%d" % (t["pattern"], t["ping"], t["pong"]), "owners": [prop],
+                                  "tags": ["timer:" + x for x in t["problems"]], "cmd": {"verb": "TIMER"}, "detail": t})
+    out["coverage"] = {"states": st.get("distinct", 0), "transitions": st.get("generated", 0), "special_traces": len(runs),
+                       "timer_runs": len(runs), "timer_rule": "Keepalive.tla: all (ping,pong) in 1..4 x 1..5 and six client patterns, exhaustive to the horizon; "
+                       "real-time runs of the grid validated by TraceTimers.tla with 1 s late / 0.2 s early tolerance",
+                       "samples": [{"timer_run": {k: runs[1][k] for k in ("ping", "pong", "pattern", "pings", "dropped_at", "events")}}] if len(runs) > 1 else []}
+    return out
+
+def replay_timer(r, harness):
+    print("timer runs are re-executed by the check itself (real time): bin/check C17"); return 2
+
+# ---- C18 (and the schedule half of C02): concurrent rounds searched for a linearization (TraceLin.tla) ----
+def run_conc(prop, tier, seed, harness, workdir, T):
+    from lincheck import lin_validate
+    out = {"tool_errors": [], "violations": [], "coverage": {}}
+    plan = [(2, 2), (4, 2), (16, 2)] if tier == "quick" else [(2, 10), (4, 10), (8, 6), (16, 10)]
+    rounds_per = 20 if tier == "quick" else 40
+    recs, procs = [], []
+    for k, (w, eps) in enumerate(plan):
+        rec = os.path.join(workdir, "conc-w%d.ndjson" % w)
+        procs.append((subprocess.Popen([harness, "conc", rec, "--seed", str(seed * 100 + k), "--rounds", str(rounds_per), "--workers", str(w),
+                                        "--episodes", str(eps), "--port-base", str(33000 + 1000 * k)],
+                                       stdout=subprocess.PIPE, stderr=subprocess.STDOUT, text=True), rec))
+    for p, rec in procs:
+        o, _ = p.communicate()
+        if p.returncode != 0: out["tool_errors"].append("conc failed: " + o[-1500:])
+        else: recs.append(rec)
+    allrec = os.path.join(workdir, "conc-all.ndjson")
+    with open(allrec, "w", encoding="utf-8") as f:
+        for r in recs: f.write(open(r, encoding="utf-8").read())
+    ok, rounds, rejected, diag, liveness, st, o = lin_validate(allrec, workers=T.get("mc_workers", 8))
+    if not ok:
+        out["tool_errors"].append("TraceLin: " + o[-2500:]); return out
+    nick_kinds = (0, 5)
+    for r in rejected:
+        if prop == "C02" and r["kind"] not in nick_kinds: continue
+        d = diag.get((r["b"], r["round"]), {})
+        out["violations"].append({"kind": "round", "class": "kind%d" % r["kind"], "owners": [prop], "tags": ["round:not-linearizable"],
+                                  "cmd": {"verb": "ROUND"}, "panics": r.get("panics"), "issue": r.get("issue"),
+                                  "detail": {"round": {k: r[k] for k in ("b", "round", "kind", "cfg", "conns", "pre", "scripts", "direct", "relay", "post")}, "stuck": d}})
+    for r in rounds:
+        if (r.get("panics") or r.get("issue")) and prop == "C18":
+            out["violations"].append({"kind": "round", "class": "run", "owners": [prop], "tags": ["round:panic-or-watchdog"], "cmd": {"verb": "ROUND"},
+                                      "panics": r.get("panics"), "issue": r.get("issue"), "detail": {"b": r["b"], "round": r["round"], "scripts": r["scripts"]}})
+    for l in liveness:
+        if prop == "C18":
+            out["violations"].append({"kind": "round", "class": "liveness", "owners": [prop], "tags": ["round:connection-not-answering"], "cmd": {"verb": "ROUND"}, "detail": l})
+    ncmds = sum(len(v) for r in rounds for v in r["scripts"].values())
+    out["coverage"] = {"special_traces": len(rounds), "conc_rounds": len(rounds), "conc_commands": ncmds, "conc_rejected": len(rejected),
+                       "lin_states": st.get("distinct", 0), "race_point_hits": max([r.get("race_hits", 0) for r in rounds] + [0]),
+                       "conc_rule": "rounds of simultaneously fired pipelined scripts (nick claims, first joins, +l races, message storms during PART/KICK/NICK, "
+                                    "KILL vs QUIT vs NICK, registration races, random) on 2/4/16 worker threads with seeded race points; TLC searches every "
+                                    "order respecting per-connection order for one that explains replies, per-pair relay order and the final state",
+                       "samples": [{"round": {"kind": rounds[0]["kind"], "scripts": rounds[0]["scripts"]}}] if rounds else []}
+    return out
+
+def replay_round(r, harness):
+    """re-judge the recorded round (the schedule itself cannot be replayed)"""
+    from lincheck import lin_validate
+    tmp = os.path.join(WORK, "replay.round.ndjson"); os.makedirs(WORK, exist_ok=True)
+    with open(tmp, "w", encoding="utf-8") as f: f.write(json.dumps(r["mismatch"]["detail"]["round"], ensure_ascii=False) + "\n")
+    ok, rounds, rejected, diag, liveness, st, o = lin_validate(tmp, workers=2)
+    print("round re-validated:", "rejected" if rejected else "accepted")
+    return 1 if rejected else 0
